@@ -346,7 +346,7 @@ class Program:
                 is_setter = any(d and d.endswith(".setter") for d in dnames)
                 f = self._make_func(mod, c, None, st, st.name, suffix=".setter" if is_setter else "")
                 decs = f.decorator_names()
-                if "property" in decs:
+                if "property" in decs or any(d and d.split(".")[-1] == "cached_property" for d in decs):
                     f.kind = "property_get"
                     f.prop_name = st.name
                     c.props.setdefault(st.name, {})["get"] = f
